@@ -28,6 +28,8 @@ var c02Texts = []string{
 	`"x"`, `""`, `"a" b "c"`, "<v>", "'q'", "«z»", "[i]", "`t`", "{m}", "(p)",
 	// the replacement character itself is ordinary (validly encoded) text
 	"x\uFFFDy", "\uFFFD", "ok \uFFFD\uFFFD end",
+	// texts that end (or begin) with the very characters used as LIST delimiters
+	"tail,", "tail;", "tail、", "local/", "example.com.", ";head", "a|", "100%", "%d items", "%s",
 }
 
 func c02Leaf(r *core.Rng) *LeafDesc {
